@@ -177,8 +177,10 @@ closeLoop:
 
 func (s *atpServerSession) runATPReadLoop() {
 	// The message is generic, so we must find the type and decode the full message next.
-	var runtimeMessage DecodedRuntimeMessage
 	for {
+		// A fresh value for every message: decoding into a struct leaves the fields the message lacks
+		// untouched, so a reused value would lend a message without run_id or data those of its predecessor.
+		var runtimeMessage DecodedRuntimeMessage
 		// First, decode the message
 		// Note: This blocks. To abort early, close stdin.
 		if err := s.cborStdin.Decode(&runtimeMessage); err != nil {
